@@ -409,12 +409,31 @@ class C18(Check):
         return evals, findings
 
     def replay(self, data):
-        i = data['input']
+        """input-level replays carry {kind, value, flavour}; correspondence replays carry the sample of the
+        disagreeing line (and the line itself with both answers); proof replays carry no input"""
+        i = data.get('input')
+        if not isinstance(i, dict):
+            return dict(note='no input in this replay file (proof obligation): see "theorem" / "build_log" in it')
+        helpers, Request = self._mods()
+        if 'value' not in i:                       # a correspondence sample
+            if i.get('kind') == 'pairs':
+                i = dict(kind='pairs', value=i['pairs'], flavour='quote_plus', qs=i.get('qs'))
+            else:
+                i = dict(kind='raw', value=i.get('qs', i.get('body', i.get('text', ''))))
+        out = dict(input=i)
+        if data.get('line'):
+            out.update(line=data['line'], recorded_impl=data.get('observed_impl'), recorded_model=data.get('observed_model'))
         if i['kind'] == 'pairs':
             pairs = [tuple(p) for p in i['value']]
             try:
                 r = self._oracle_pairs(pairs, i.get('flavour') or 'quote_plus')
             except core.Hang:
                 r = ('hang', 'does not terminate')
-            return dict(input=i, query_string=urllib.parse.urlencode(pairs), oracle=r)
-        return dict(input=i, oracle=self._oracle_total(i['value']))
+            out.update(query_string=urllib.parse.urlencode(pairs), oracle=r)
+            qs = i.get('qs') or urllib.parse.urlencode(pairs)
+        else:
+            qs = i['value']
+            out.update(oracle=self._oracle_total(qs))
+        out['parse_qsl_now'] = guarded(lambda: helpers.parse_qsl(qs), lambda l: [list(p) for p in l])
+        out['query_now'] = guarded(lambda: dict(self._request(Request, qs, b'').query), lambda d: d)
+        return out
